@@ -43,6 +43,7 @@ var poolOpts = bridge.GenOpts{
 // once: batch timeouts, out-of-order executions, cancels, shared tx hashes.
 func c04Opts() bridge.GenOpts {
 	o := poolOpts
+	o.HighCounters = true
 	o.Weights = map[string]int{"xtick": 14, "send2": 10, "cancel": 10, "burst": 1, "reqbatch": 10}
 	o.EthTimeout = []uint64{60000, 60000, 150000}
 	o.TimeoutMs = []uint64{20000, 60000, 20001, 86400000 - 1}
@@ -75,11 +76,17 @@ func TestC04(t *testing.T) {
 
 // ---------------------------------------------------------------- C10
 
+func c10Opts() bridge.GenOpts {
+	o := poolOpts
+	o.HighCounters = true
+	return o
+}
+
 func TestC10(t *testing.T) {
 	(&pbt.Check{
 		ID:   "C10",
 		Rule: "same histories as C04 with permissionless batch requests at any time, Minter coin ids 1/10/101, bursts of >100 sends per token; non-trivial = a batch was created while a prefix-related token or >100 candidates were unbatched; distinct = distinct case JSON",
-		Gen:  bridge.GenCase(poolOpts),
+		Gen:  bridge.GenCase(c10Opts()),
 		New:  func() interface{} { return &bridge.Case{} },
 		Run: func(ci interface{}, rec *pbt.Rec) *pbt.Failure {
 			c := ci.(*bridge.Case)
@@ -139,6 +146,7 @@ func TestC13(t *testing.T) {
 	o.Denoms = 3
 	o.BlockTimes = true
 	o.ByzHeights = true
+	o.HighCounters = true
 	(&pbt.Check{
 		ID:   "C13",
 		Rule: "batch histories on ethereum/bsc/minter with several tokens, generated external clock, executions in any admissible order, observed heights around each timeout; non-trivial = an execution or a BeginBlock processed while >=3 batches of >=2 tokens were pending and a batch was withdrawn or executed in the history; distinct = distinct case JSON",
